@@ -41,6 +41,10 @@ type Cfg struct {
 	// WideCmp: RemoteConfig.KeyCompare is the default order with results of magnitude 5 (a
 	// comparison function may return any negative / zero / positive int, as `a - b` does)
 	WideCmp bool `json:",omitempty"`
+	// NoVL: RemoteConfig.ValuesLike is nil and UnmarshalerUsesRegisteredTypes is set (the "set"
+	// configuration of the binary format: values are written, and dropped when a node is decoded);
+	// used for write-only histories, where the bytes written must still be the published encoding
+	NoVL bool `json:",omitempty"`
 }
 
 // RegMode: the registered-types decoding is used only where default JSON gives back the Go
